@@ -10,7 +10,7 @@ def sig_of(rej, scn):
 
 def main(c):
     drv = c.build()
-    specs = c.stage_specs("term")
+    specs = c.stage_specs("term", "render")
     c.assumptions += [
         "lexer (harness/lexer) and uniseg/runewidth grapheme facts are trusted base",
         "a width-2 grapheme placed in the last column is outside the domain",
@@ -18,6 +18,21 @@ def main(c):
     ]
     if not c.replay:
         c.model_check(specs, "MC_RefTerm.tla", "MC_RefTerm.cfg" if c.tier == "quick" else "MC_RefTerm_deep.cfg")
+        # implementation-shaped renderer model composed with the oracle: every 2-3 frame history on a tiny screen
+        if c.tier == "quick":
+            cfgs = ["MC_Render_fixed_q2.cfg", "MC_Render_fixed_sync_xw_q2.cfg"]
+        else:
+            cfgs = ["MC_Render_fixed_quick.cfg", "MC_Render_fixed_sync_xw_quick.cfg", "MC_Render_fixed.cfg", "MC_Render_fixed_sync_xw.cfg"]
+        for cfg in cfgs:
+            ok, _ = c.model_check(specs, "MC_Render.tla", cfg, workers=16)
+            if not ok:
+                c.notes.append("MODEL: Render model violates FrameAlwaysOK under %s (candidate; verdicts come from trace validation)" % cfg)
+        if c.tier != "quick":
+            refuted = 0
+            for cfg in ("MC_Render_bug_hidden.cfg", "MC_Render_bug_link.cfg", "MC_Render_bug_cursor.cfg"):
+                ok, _ = c.model_check(specs, "MC_Render.tla", cfg, workers=8, expect_violation=True)
+                refuted += 0 if ok else 1
+            c.cov["as_found_render_models_refuted"] = refuted
     td = c.drive(drv, "c01", replay=c.replay)
     rejects, _ = c.validate_traces(specs, "RefTerm_Trace.tla", "RefTerm_Trace.cfg", td)
     idx = c.load_index(td)
